@@ -225,10 +225,10 @@ func report(eng *Engine, prop, tier string, seed int, verif string, results []*f
 		perSolver[k] = map[string]interface{}{"seconds": v, "queries": pf.nQueries[k]}
 	}
 	cov := map[string]interface{}{
-		"obligations":  nObl,
-		"discharged":   nDis,
-		"checker_cmd":  fmt.Sprintf("gocv check --repo %s --prop %s --tier %s  (VCs from go/ssa NaiveForm of the working tree; z3-new 5.1.0 first, then z3 4.8.12 / cvc5 1.0.3 raced)", eng.repoDir, prop, tier),
-		"trusted_base": trustedBase,
+		"obligations":              nObl,
+		"discharged":               nDis,
+		"checker_cmd":              fmt.Sprintf("gocv check --repo %s --prop %s --tier %s  (VCs from go/ssa NaiveForm of the working tree; z3-new 5.1.0 first, then z3 4.8.12 / cvc5 1.0.3 raced)", eng.repoDir, prop, tier),
+		"trusted_base":             trustedBase,
 		"functions_under_contract": funcs,
 		"obligation_results":       reps,
 		"known_findings_reported":  nKnown,
